@@ -34,7 +34,10 @@ impl Record {
         };
 
         let quality_scores = if record.quality_scores().is_empty() {
-            QualityScores::default()
+            // The quality scores array is always written. Missing quality scores are stored as
+            // missing values, one per base, which the reader maps back to no quality scores.
+            const MISSING: u8 = 0xff;
+            QualityScores::from(vec![MISSING; record.sequence().len()])
         } else {
             if bam_flags.is_unmapped() {
                 cram_flags.insert(Flags::QUALITY_SCORES_ARE_STORED_AS_ARRAY);
